@@ -10,6 +10,8 @@ pub mod serial;
 pub mod validation;
 pub mod transpose;
 pub mod transpose_crafted;
+pub mod validation_crafted;
+pub mod related_crafted;
 pub mod stamql;
 pub mod webanno;
 pub mod concurrent;
